@@ -103,11 +103,34 @@ def run_case(ctx, gd, q, doms, cards=None):
             if so[p_] == ty:
                 so[p_] = ty
                 kernel.count("C05:aliased-argument-sets")
-    try:
-        res = identify_target_outcomes(g, target_outcomes=ty, target_interventions=tx,
-                                       surrogate_outcomes=so, surrogate_interventions=si)
-    except Exception:  # noqa: BLE001 -- judged by the monitor
-        pass
+    two_step = sum(map(ord, gg.key(gd) + "".join(q["X"]))) % 4 == 1
+    if two_step:
+        # the public two-step route: surrogate_to_transport, then trso on a TRSOQuery the caller assembles (what
+        # identify_target_outcomes does after its input checks); judged by the same post-condition
+        from y0.algorithm.transport import TRSOQuery, surrogate_to_transport, trso
+        from y0.dsl import TARGET_DOMAIN, Distribution, PopulationProbability
+
+        kernel.count("C05:two-step-calls")
+        snap = mon_trso._pre(g, target_outcomes=ty, target_interventions=tx, surrogate_outcomes=so,
+                             surrogate_interventions=si)
+        exc = None
+        try:
+            tq = surrogate_to_transport(graph=g, target_outcomes=ty, target_interventions=tx, surrogate_outcomes=so,
+                                        surrogate_interventions=si)
+            res = trso(TRSOQuery(target_interventions=tq.target_interventions, target_outcomes=tq.target_outcomes,
+                                 expression=PopulationProbability(population=TARGET_DOMAIN,
+                                                                  distribution=Distribution.safe(g.nodes())),
+                                 active_interventions=set(), domain=TARGET_DOMAIN, domains=tq.domains, graphs=tq.graphs,
+                                 surrogate_interventions=tq.surrogate_interventions))
+        except Exception as e:  # noqa: BLE001
+            exc = e
+        mon_trso._judge(snap, res, exc, g, ty, tx, so, si)
+    else:
+        try:
+            res = identify_target_outcomes(g, target_outcomes=ty, target_interventions=tx,
+                                           surrogate_outcomes=so, surrogate_interventions=si)
+        except Exception:  # noqa: BLE001 -- judged by the monitor
+            pass
     s = str(res)
     beyond = res is not None and not identifiable(gg.to_rg(gd), {Variable(x) for x in q["X"]}, {Variable(y) for y in q["Y"]})
     nt = res is not None and ("PP[π" in s or beyond)
